@@ -363,6 +363,37 @@ def host_cases(tier):
                                ('seq-param', 'let g = (q: Sequence<%s>)->{ q }; let v = g([%s]);' % (hname, aexpr))):
                 n += 1
                 out.append(('generic-host|%s|value-call|%s(%s)' % (hname, form, rr(at)), hdr % (n, text), assignable(HOST, at), []))
+    # two levels of generic functions: the outer and the inner type parameter are two different opaque types, whatever their names
+    H1, H2 = cmp_('HostA'), cmp_('HostB')
+    avail2 = [('z', H1), ('y', H2), ('1', 'int'), ('[z]', nat('Sequence', H1)), ('[y]', nat('Sequence', H2))]
+    targets2 = [H1, H2, 'int', tup(H1, H2), tup(H2, H1), nat('Sequence', H1), nat('Sequence', H2), fn([H1], H1), fn([H2], H2)]
+    for n1, n2 in (('T', 'U'), ('U', 'T'), ('A', 'T'), ('T', 'B'), ('A', 'B')):
+        def rr2(t):
+            return render(t).replace('HostA', n1).replace('HostB', n2)
+        hdr2 = 'fn ho%%d<%s>(z: %s)->int{ fn hi<%s>(y: %s)->int{ %%s 0 } 0 }' % (n1, n1, n2, n2)
+        for cname, gens, params, ret in callees:
+            if cname in ('hq_app', 'hq_push'):
+                continue
+            for args in itertools.product(avail2, repeat=len(params)):
+                ok, b = T.bind_call(params, [a[1] for a in args])
+                if ok == T.UNSPEC:
+                    continue
+                call = '%s(%s)' % (cname, ', '.join(a[0] for a in args))
+                n += 1
+                out.append(('generic-host2|%s,%s|%s(%s)' % (n1, n2, cname, ' ; '.join(rr2(a[1]) for a in args)), hdr2 % (n, 'let v = %s;' % call), bool(ok), []))
+                if ok and all(g in b for g in gens):
+                    rt = T.subst(ret, b)
+                    if not writable(rt):
+                        continue
+                    for tg in targets2:
+                        n += 1
+                        out.append(('generic-host2|%s,%s|%s(%s)|as %s' % (n1, n2, cname, ' ; '.join(rr2(a[1]) for a in args), rr2(tg)),
+                                    hdr2 % (n, 'let v: %s = %s;' % (rr2(tg), call)), assignable(tg, rt), []))
+        # the inner function's own parameter types and plain uses
+        for aexpr, at in avail2:
+            for tg in (H1, H2):
+                n += 1
+                out.append(('generic-host2|%s,%s|let %s <- %s' % (n1, n2, rr2(tg), rr2(at)), hdr2 % (n, 'let v: %s = %s;' % (rr2(tg), aexpr)), assignable(tg, at), []))
     return decls, out
 
 
